@@ -23,6 +23,26 @@ Check C08_truncation_body :
   let h := d_header f in
   let h' := mkHeader (h_version h) (h_flags h) (h_stream h) (h_opcode h) (lenN q) in
   is_rejected (fst (decode decompress ft v2 cmp (enc_header h' ++ q ++ rest))) = true.
+Check C08_alloc :
+  forall decompress R,
+  1 <= R -> (forall b d, decompress b = Some d -> lenN d <= R * lenN b) ->
+  forall ft v2 cmp stream,
+  c_alloc (snd (decode decompress ft v2 cmp stream)) <= alloc_bound (R * lenN stream).
+Check C08_alloc_plain :
+  forall decompress ft v2 stream,
+  c_alloc (snd (decode decompress ft v2 false stream)) <= alloc_bound (lenN stream).
+Check C08_depth :
+  forall decompress ft v2 cmp stream,
+  c_depth (snd (decode decompress ft v2 cmp stream)) <= DEPTH_LIMIT.
+Check C08_fuel_enough_partial :
+  forall custom decompress,
+  (forall s, fst (custom s) <> Err EOutOfFuel) ->
+  forall ft v2 cmp stream st,
+  fst (decode_frame custom decompress ft v2 cmp stream) <> OErr st EOutOfFuel.
 Print Assumptions C08_roundtrip.
 Print Assumptions C08_truncation.
 Print Assumptions C08_truncation_body.
+Print Assumptions C08_alloc.
+Print Assumptions C08_alloc_plain.
+Print Assumptions C08_depth.
+Print Assumptions C08_fuel_enough_partial.
